@@ -3,7 +3,9 @@ SPECIFICATION Spec
 CONSTANTS
     Owners = {"A", "B"}
     Serials = {"z0", "s1", "s256", "s2e64"}
-    Bodies = {1, 2}
+    Bodies = {1, 2, 3}
+    ForeignBodies = {3}
+    ForeignSerials = {"s1"}
     KeySeq <- KeySeqGen
     ZeroSerials = {"z0"}
     Impl = "intended"
